@@ -4,6 +4,7 @@ import Casket.Spec.PeerBytes
 import Casket.Generated.Mitm
 import Casket.Props.C20
 import Casket.Proofs.HelloSpec
+import Casket.Proofs.HelloPool
 /-
 C19 — Bytes from network peers cannot crash handlers or skew what is recorded.
 
@@ -132,6 +133,58 @@ example : Casket.HelloSpec.WF
         intro c hc; simp at hc; rcases hc with rfl | rfl <;> decide
       · show ([0] : Bytes).length < 256; decide,
     total := by decide }
+
+/-! ### several connections, one listener, one buffer pool -/
+
+/-- A buffer taken from the pool is observably empty: whatever the pool holds (`p`) and whichever
+pooled buffer `sync.Pool` hands out (`k`), the connection `Accept` builds starts with an empty
+capture buffer, nothing read and nothing recorded. -/
+theorem C19_pooled_buffer_observably_empty (p : Pool) (k : Nat) : (acceptConn p k).1 = {} :=
+  acceptConn_fst p k
+
+/-- What is recorded for a connection is a function of THAT connection's bytes only.  For every
+content of `bufpool`, every choice of pooled buffers and every interleaving of accepts, reads and
+closes of any number of connections at one `tlsHelloListener` (`steps`): no step faults, and the
+`helloInfos` entry of each connection `i` is `HelloSpec.connReading i steps` — nothing if `i` was never
+accepted or its first record is incomplete, else the reference reading (`specRead`) of the message
+in the first record of the bytes `i` itself delivered between its accept and its close.  Bytes of
+other peers (earlier connections, aborted ones, connections open at the same time) do not occur in
+the right-hand side. -/
+theorem C19_connections_independent (p : Pool) (steps : List Step) :
+    ∃ l, Listener.run { pool := p } steps = .ok l ∧
+      ∀ i, l.recordedOf i = Casket.HelloSpec.connReading i steps :=
+  run_recorded p steps
+
+/-- the judge of c19.conns accepts the model's answer for every pool, schedule and number of
+connections looked at -/
+theorem C19_conns_model_verdict_ok (p : Pool) (steps : List Step) (n : Nat) :
+    ∃ recs, recordedSeq p steps n = .ok recs ∧ Casket.HelloSpec.connsVerdict steps recs = "ok" := by
+  obtain ⟨l, hrun, hrec⟩ := C19_connections_independent p steps
+  refine ⟨(List.range n).map l.recordedOf, by unfold recordedSeq; rw [hrun], ?_⟩
+  have : (List.range n).map l.recordedOf
+      = (List.range' 0 n).map fun j => Casket.HelloSpec.connReading j steps := by
+    rw [List.range_eq_range']
+    exact List.map_congr_left fun i _ => hrec i
+  rw [this]
+  exact connsVerdictFrom_ok steps n 0
+
+/-- and the second half of the judge of c19.seg (`recordedVerdict`: nothing before the first record
+is complete, then its reference reading) accepts what the model records for every list of reads -/
+theorem C19_seg_model_verdict_ok (segs : List Bytes) :
+    ∃ r, recorded segs = .ok r ∧ Casket.HelloSpec.recordedVerdict segs.flatten r = "ok" :=
+  ⟨_, recorded_reading segs, recordedVerdict_reading _⟩
+
+/-- peer 0 sends three bytes of a record header and goes away, peer 1 then sends a complete record
+in two pieces — through a pool that already holds a buffer with stale bytes: nothing is recorded for
+peer 0, and peer 1's entry is the reading of its own record -/
+example : recordedSeq { free := [[9, 9, 9]] }
+    [.accept 0 0, .read 0 [22, 3, 1], .close 0, .accept 1 0, .read 1 [22, 3, 1, 0, 3, 1], .read 1 [0, 0]] 2
+    = .ok [none, some {}] := by decide
+
+/-- two connections open at the same time, reads interleaved -/
+example : recordedSeq {}
+    [.accept 0 0, .accept 1 0, .read 0 [22, 3, 1, 0], .read 1 [22, 3, 1, 0, 1, 7], .read 0 [2, 1, 0], .close 1] 2
+    = .ok [some {}, some {}] := by decide
 
 /-! ### model answers satisfy the judge -/
 
@@ -267,6 +320,30 @@ theorem C19_prefix_segmentation_witness :
       | .ok c => (match readConsuming c (whole.drop 7) with | .ok c' => c'.recorded | .error _ => none)
       | .error _ => none) = none ∧
     (match readConsuming {} whole with | .ok c => c.recorded | .error _ => none) = some {} := by
+  decide
+
+/-- `Accept` without the `Reset` (the pool is trusted to hold empty buffers) -/
+def acceptNoReset (p : Pool) (k : Nat) : Conn × Pool :=
+  let (b, p') := p.get k
+  ({ buf := b }, p')
+
+/-- a `Close` that hands the buffer of a connection whose hello never completed back to the pool
+as it is -/
+def closePutting (c : Conn) (p : Pool) : Pool := if c.readHello then p else p.put c.buf
+
+/-- with those two, three bytes sent by peer A (and then gone) are in front of peer B's record when
+B's connection gets the same buffer: B's complete hello is never recorded, although the same bytes
+on their own are -/
+theorem C19_prefix_pool_witness :
+    let a : Bytes := [22, 3, 1]
+    let b : Bytes := [22, 3, 1, 0, 3, 1, 0, 0]
+    (match (acceptNoReset {} 0).1.read a with
+      | .ok cA =>
+        (match (acceptNoReset (closePutting cA (acceptNoReset {} 0).2) 0).1.read b with
+          | .ok cB => cB.recorded
+          | .error _ => none)
+      | .error _ => none) = none ∧
+    recorded [b] = .ok (some {}) := by
   decide
 
 end Casket.Props.C19
